@@ -5,7 +5,7 @@ import Sourmash.Spec.Similarity
 C05 driver.  Request lines (see `harness/src/bin/c05.rs`):
 
   sk a|b <scaled> <num> <ksize> <dna|protein|dayhoff|hp> <seed> <track 0|1> <mins> <abunds>
-  isz|isect|jac|jacv|ang|angin|angone|angzero  V|T ab|ba
+  isz|isect|jac|jacx|jacv|ang|angin|angone|angzero  V|T ab|ba
   cc V|T ab|ba <downsample 0|1>
   sim V|T ab|ba <ignore_abundance 0|1> <downsample 0|1>
   cmp|cmpv sig|store|large sim|cont ab|ba
@@ -23,6 +23,17 @@ structure St where
 
 def hex16 (u : UInt64) : String :=
   String.ofList ((List.range 16).map (fun i => hexDigit ((u.toNat >>> (4 * (15 - i))) % 16)))
+
+/-- IEEE-754 bit pattern of a value `(m, e)` of the exact integer model (`m·2^e`, `m ∈ [2^52, 2^53]`
+    or `m = 0`; normal range only) -/
+def bitsOfPair (x : Nat × Int) : UInt64 :=
+  if x.1 == 0 then 0 else
+  let (m, e) := if x.1 == 2^53 then (2^52, x.2 + 1) else x
+  UInt64.ofNat (((e + 52 + 1023).toNat <<< 52) ||| (m - 2^52))
+
+/-- `common as f64 / max(1, size) as f64` on the exact model of Model/Scaled.lean -/
+def jaccardExact (c s : Nat) : String :=
+  hex16 (bitsOfPair (Scaled.fdiv (Scaled.ofNat c) (Scaled.ofNat (max 1 s))))
 
 def showF (x : Float) : String := if x.isNaN then "nan" else hex16 x.toBits
 
@@ -143,6 +154,15 @@ def stepC05 (st : St) (ws : List String) : St × Resp :=
                         | .error e => showErr e,
                spec := match specJaccard x y with
                        | some (cm, s) => showF (jaccardTail cm s : Float)
+                       | none => "-" })
+      else if op == "jacx" then
+        -- the same request as `jac`, answered by the exact integer model of binary64 division
+        (st, { model := match jaccardCore c x y with
+                        | .ok (.jaccard cm s) => jaccardExact cm s
+                        | .ok r => showF (simTail r)
+                        | .error e => showErr e,
+               spec := match specJaccard x y with
+                       | some (cm, s) => jaccardExact cm s
                        | none => "-" })
       else if op == "jacv" then
         (st, { model := match jaccardCore c x y with
